@@ -424,7 +424,9 @@ const (
 
 type c18Window struct{ a, b int64 }
 
-var c18Windows = []c18Window{{-300, 300}, {0, 0}, {-2, -1}, {1, 2}, {-1, 0}, {0, 1}}
+// the last two have an end more than 2^31 s away from now (the fields are plain 32-bit second counts: RFC 2931
+// §3 takes them from RFC 2535 §4.1.5 without serial arithmetic for SIG(0)): a timely one and an inverted one
+var c18Windows = []c18Window{{-300, 300}, {0, 0}, {-2, -1}, {1, 2}, {-1, 0}, {0, 1}, {-300, 1<<31 + 1000}, {1<<31 + 100, 5}}
 
 func c18Spaces(c *fw.Ctx) {
 	type msgSel struct {
@@ -437,7 +439,7 @@ func c18Spaces(c *fw.Ctx) {
 	}
 	signMsgs = append(signMsgs, msgSel{c18Msg{name: "max65535", desc: "TXT records sized so that the signed message is exactly 65535 octets"}, true})
 
-	c.Space("sign", "messages {"+c18MsgNames()+", max65535} × Compress {false,true} × 6 algorithms × validity windows now+{(-300,+300),(0,0),(-2,-1),(+1,+2),(-1,0),(0,+1)}: Sign output octets, reference verification, SIG.Verify with the signer's and the receiver's SIG against the window; non-trivial: anything but the TestSIG0 shape (bare query, uncompressed, ±300 s)", true,
+	c.Space("sign", "messages {"+c18MsgNames()+", max65535} × Compress {false,true} × 6 algorithms × validity windows now+{(-300,+300),(0,0),(-2,-1),(+1,+2),(-1,0),(0,+1),(-300,+2^31+1000),(+2^31+100,+5)}: Sign output octets, reference verification, SIG.Verify with the signer's and the receiver's SIG against the window; non-trivial: anything but the TestSIG0 shape (bare query, uncompressed, ±300 s)", true,
 		func(emit func(func(*fw.R))) {
 			for _, ms := range signMsgs {
 				for _, compress := range []bool{false, true} {
